@@ -215,7 +215,24 @@ def rule_nondet(ctx):
         yield ob("C15.NONDET", f, "%s:nondet" % f.qual, not probs, "; ".join(probs) if probs else "no random/time/environment/id()/file-system source", node=node)
 
 
+def rule_uninit(ctx):
+    """A ufunc called with where=<mask> and without out= leaves the entries outside the mask *uninitialised*: the result
+    then depends on whatever the allocator returned, i.e. on earlier calls."""
+    R = "C15.UNINIT"
+    n = 0
+    for f in ctx.program.all_funcs(include_new=True):
+        if f.module.name in ("sonify", "display"):
+            continue
+        s = ctx.S.get(f.qual)
+        for c in s.calls():
+            if c.callee and c.callee.startswith("np.") and any(k == "where" for k, _ in c.kw) and not any(k == "out" for k, _ in c.kw) and c.callee not in ("np.sum", "np.mean", "np.min", "np.max", "np.any", "np.all", "np.prod", "np.std", "np.var"):
+                n += 1
+                yield ob(R, f, "%s:%s(where=)@%d" % (f.qual, c.callee, n), False, "%s(..., where=mask) without out=: entries outside the mask are uninitialised memory and flow into the result" % c.callee, node=c.node)
+    yield ob(R, "mir_eval/", "package:no-masked-ufunc-without-out", True, "no ufunc is called with where= and without out= (%d reported)" % n)
+
+
 RULES = [
+    ("C15.UNINIT", 1, rule_uninit),
     ("C15.NOMUT", 190, rule_nomut),
     ("C15.EMPTYFILL", 20, rule_emptyfill),
     ("C15.GLOBALSTATE", 200, rule_globalstate),
